@@ -33,6 +33,7 @@ METHODS = ["quantile", "bc", "bca"]
 # the last two: a large exact shift (spread << magnitude) and a tiny exact scale (absolute tolerances bite)
 AFFINE = [(2.0, -3.0), (0.5, 10.0), (1.0, 1048576.0), (2.0 ** -30, 0.0)]
 NAN = float("nan")
+SCALES = [1.0, 2.0 ** -30, 1024.0, 2.0 ** -12]  # per-component scales of one stacked call
 
 
 def bounds(tier):
@@ -265,6 +266,41 @@ def run(item, ctx, tier, seed):
                             if not np.allclose(flat[k, j], single, rtol=0, atol=1e-12, equal_nan=True):
                                 ctx.fail("components-independent", dict(case, component=k, alpha=alphas[j]),
                                          observed=flat[k, j], expected=single)
+                # ---- the same values in other memory layouts (estimate and/or replicates Fortran-ordered, strided)
+                if len(yshape) >= 1 and size > 1:
+                    case = {"N": N, "metric_shape": list(yshape), "method": method, "columns": pick[:3]}
+                    ok, base = guarded(ctx, "stacked-call", case, _call, theta, hat, 0.1, method)
+                    if ok:
+                        wide = np.zeros(yshape[:-1] + (2 * yshape[-1],))
+                        wide[..., ::2] = hat
+                        layouts = [("estimate-F", theta, np.asfortranarray(hat)), ("both-F", np.asfortranarray(theta), np.asfortranarray(hat)),
+                                   ("estimate-strided", theta, wide[..., ::2]), ("replicates-F", np.asfortranarray(theta), hat)]
+                        for lname, th_l, hat_l in layouts:
+                            ok, ci = guarded(ctx, "layout-call", dict(case, layout=lname), lambda: __import__("score_analysis").utils.bootstrap_ci(
+                                th_l, hat_l, 0.1, method=method))
+                            ctx.tick()
+                            ctx.nontrivial()
+                            if ok and not np.array_equal(np.asarray(ci), np.asarray(base), equal_nan=True):
+                                ctx.fail("memory-layout-irrelevant", dict(case, layout=lname), observed=ci, expected=base)
+                # ---- components on very different scales (exact powers of two): each still equals its stand-alone call
+                if size > 1:
+                    scales = [SCALES[k % len(SCALES)] for k in range(size)]
+                    theta_s = (np.array(pick, dtype=float) * np.array(scales)[:, None]).T.reshape((N,) + yshape)
+                    hat_s = (np.array(hats, dtype=float) * np.array(scales)).reshape(yshape)
+                    case = {"N": N, "metric_shape": list(yshape), "method": method, "columns": pick[:3], "scales": scales[:3]}
+                    ok, ci = guarded(ctx, "scaled-call", case, _call, theta_s, hat_s, 0.1, method)
+                    ctx.tick()
+                    if ok:
+                        flat = np.asarray(ci, dtype=float).reshape((size, 2))
+                        for k in range(size):
+                            col = [v * scales[k] for v in pick[k]]
+                            single = np.asarray(_call(col, hats[k] * scales[k], 0.1, method), dtype=float)
+                            fin_ = [v for v in col if not math.isnan(v)]
+                            if len(set(fin_)) >= 2:
+                                ctx.nontrivial()
+                            if not np.allclose(flat[k], single, rtol=0, atol=1e-12 * scales[k], equal_nan=True):
+                                ctx.fail("components-independent", dict(case, component=k, scale=scales[k], alpha=0.1),
+                                         observed=flat[k], expected=single)
     ctx.sample({"kind": "stacked", "metric_shapes": b["metric_shapes"], "alpha_shapes": b["alpha_shapes"]})
     return None
 
